@@ -9,7 +9,7 @@ LEVEL = "exploration"
 RULE = (
     "batches of 6 Hypothesis-generated programs (+ template batches) x form in {as built, optimize(), optimize(fuse=False), lowered}; the origin records _name, schema, "
     "divisions, npartitions and the computed result and pickle.dumps() the collection; a FRESH interpreter with empty caches loads it and reports the same five observations "
-    "(one receiver per (batch, form): different forms of one program never share a receiver); all must agree. non-trivial = the pickled plan contains an expression whose "
+    "(one receiver per (batch, form): different forms of one program never share a receiver; receivers run with a different PYTHONHASHSEED than the origin); all must agree. Includes 80-400 row tables so that sampled-quantile division code paths are reached. non-trivial = the pickled plan contains an expression whose "
     "divisions/meta are not derivable from its operands alone (set_index / sort_values / repartition / quantile-based) or a partition-filtered or fused node; distinct by (program hash, form)"
 )
 ASSUMPTIONS = ["UDFs are importable from vlib.udfs in the receiving interpreter (pickled by reference)", "delayed-backed sources are picklable graphs of pure functions"]
@@ -25,10 +25,37 @@ FORMS = ["logical", "optimized", "unfused", "lowered"]
 BATCH = 6
 
 
+def big_table(name, n, nparts, seed=0):
+    cols = [["k", "int"], ["f", "float"], ["s", "str"], ["u", "int"], ["rid", "int"]]
+    rows = [[(i * 7 + seed) % 9, None if i % 7 == 0 else ((i * 5 + seed) % 13 - 6) / 2.0, None if i % 9 == 0 else "abcde"[(i * 3) % 5], (i * 37 + seed * 11) % 101, i] for i in range(n)]
+    return {"name": name, "columns": cols, "rows": rows, "index": {"kind": "range", "name": None}, "layout": {"kind": "from_pandas", "npartitions": nparts, "sort": True}}
+
+
+def big_cases(tier):
+    """plans whose divisions come from *sampled* quantiles need >~15 rows per partition"""
+    S = templates.S
+    out = []
+    for n, nparts in ((80, 4), (200, 5)) if tier == "quick" else ((80, 4), (200, 5), (400, 8), (90, 2)):
+        t = big_table("t0", n, nparts)
+        progs = [
+            [S("v1", "set_index", ["t0"], col="u", drop=True)],
+            [S("v1", "set_index", ["t0"], col="f2", drop=False)] if False else [S("v1", "sort_values", ["t0"], by=["u"], ascending=True, na_position="last")],
+            [S("v1", "set_index", ["t0"], col="u", drop=True), S("v2", "cols", ["v1"], cols=["f", "k"])],
+            [S("v1", "sort_values", ["t0"], by=["f", "rid"], ascending=False, na_position="first"), S("v2", "filter_pred", ["v1"], pred={"col": "k", "cmp": "gt", "val": 2})],
+            [S("v1", "set_index", ["t0"], col="rid", drop=True), S("v2", "repartition", ["v1"], npartitions=3)],
+            [S("v1", "groupby_agg", ["t0"], by=["k"], col="f", how="mean", split_out=2, sort=None)],
+        ]
+        for sh in ("tasks", "disk"):
+            for steps in progs:
+                out.append({"tables": [t], "steps": steps, "out": [steps[-1]["id"]], "config": {"shuffle": sh}, "template": "big"})
+    return out
+
+
 def systematic(tier):
     cs = [c for c in templates.c01_cases(tier)]
     if tier == "quick":
-        cs = cs[::6]
+        cs = cs[::9]
+    cs = big_cases(tier) + cs
     return [{"batch": cs[i : i + BATCH]} for i in range(0, len(cs), BATCH)]
 
 
@@ -41,7 +68,7 @@ def strategy(tier):
 
 
 def n_random(tier):
-    return 32 if tier == "quick" else 4000
+    return 24 if tier == "quick" else 4000
 
 
 def form_of(coll, form):
@@ -108,7 +135,8 @@ def check(case):
         if not items:
             continue
         try:
-            outs = subproc.run_receiver("unpickle", items)
+            # the receiver gets another string-hash salt than the origin (which runs with PYTHONHASHSEED=0)
+            outs = subproc.run_receiver("unpickle", items, hashseed=str(1000 + FORMS.index(form)))
         except Exception as e:
             raise RuntimeError(f"receiver crashed: {e}")
         for (prog, fl, origin), out in zip(metas, outs):
